@@ -82,6 +82,14 @@ def check_result(case, result, rec, jc):
 
         if not np.array_equal(arr("data"), D):
             bad.append(("data-changed", f"{label}: result data differ from the input data"))
+        # comparisons below are NaN-blind (nan > tol is False): a non-finite entry in a reported variable is judged here
+        nonfinite = [v for v in ("fitted_data", "residual", "clp", "matrix", "weighted_residual", "weight") if v in rd and not np.isfinite(rd[v].values).all()]
+        if "matrix" in nonfinite:
+            rec.skip("model matrix non-finite at the reported parameters (harness model overflow)")
+            continue
+        if nonfinite:
+            bad.append((f"non-finite:{nonfinite[0]}", f"{label}: result variable(s) {nonfinite} contain NaN / inf (finite input data)"))
+            continue
         rec.count("identities_checked")
         # -- data = fitted + residual
         dev = np.abs(arr("data") - (arr("fitted_data") + arr("residual")))
@@ -147,12 +155,12 @@ def compare_with_reference(case, ds, rd, ref, pv, W):
         res = rd["residual"].transpose("time", "spectral").values
         tol = T.lsq_tol(len(t) * len(gax), 10, max(np.abs(res).max(), 1.0), kap)
         fd = rd["fitted_data"].transpose("time", "spectral").values
-        if np.abs(fd - fitted).max() > tol * 10:
+        if not np.abs(fd - fitted).max() <= tol * 10:
             bad.append(("fitted-fullmodel", f"{label}: fitted_data != matrix @ clp @ global_matrix^T (max {np.abs(fd - fitted).max():.3e})"))
         want = full["residual"]
         if W is not None:
             want = want / W
-        if np.abs(res - want).max() > tol * 10:
+        if not np.abs(res - want).max() <= tol * 10:
             bad.append(("residual-fullmodel", f"{label}: residual differs from the reference (max {np.abs(res - want).max():.3e})"))
         return bad
     labels = ref["clp_labels"][label]
@@ -192,7 +200,7 @@ def compare_with_reference(case, ds, rd, ref, pv, W):
         if W is not None:
             rref = rref / W[:, i]
         tol = T.lsq_tol(len(t), len(labels), max(np.abs(rref).max(), 1.0), kap) * 10
-        if np.abs(res - rref).max() > tol:
+        if not np.abs(res - rref).max() <= tol:
             # where did it come from? (unique ids make foreign columns identifiable)
             origin = ""
             for (l2, i2), r2 in ref["residuals"].items():
